@@ -54,7 +54,20 @@ func runC18(tier string, seed uint64, rep *Report) {
 	}
 	for i := 0; i < n; i++ {
 		var prog types.MalType
-		switch i % 3 {
+		switch i % 4 {
+		case 3:
+			// failures whose error is a bare Go error or carries no position, observed through the caught value:
+			// stepping over the enclosing form must not re-wrap or re-position them
+			bad := []types.MalType{Call("let", 5, S("x")), Call("do", Call("let", 5, S("x"))), Call("do", Call("defmacro", S("m1"), Call("fn", V(S("a")), S("a"))), Call("m1")),
+				Call("undefined-zz"), Call("nth", V(), 3), L(Call("fn", V(S("a")), S("a"))), Call("throw", "s"), Call("throw", types.HashMap{Val: map[string]types.MalType{Kw("a"): 1}}),
+				Call("let", V(S("x")), 1), Call("def"), Call("first", 5)}[r.Intn(11)]
+			wrap := []func(types.MalType) types.MalType{
+				func(x types.MalType) types.MalType { return x },
+				func(x types.MalType) types.MalType { return Call("do", Call("trace!", 1), x) },
+				func(x types.MalType) types.MalType { return Call("let", V(S("q"), 1), x) },
+				func(x types.MalType) types.MalType { return L(Call("fn", V(), x)) },
+			}[r.Intn(4)]
+			prog = Call("try", wrap(bad), Call("catch", S("e"), Call("list", Call("string?", S("e")), Call("map?", S("e")), Call("trace!", S("e")))))
 		case 0:
 			prog = g.Program(2 + r.Intn(4))
 		case 1:
@@ -65,7 +78,7 @@ func runC18(tier string, seed uint64, rep *Report) {
 				Call("unless", Call("trace!", r.Bool()), g.Program(2), Call("cond", false, 1, Kw("else"), Call("and", 1, Call("trace!", 2)))))
 		}
 		ref, _, _ := runProgram(prog)
-		scripts := [][]int{{}, {1}, {2, 2, 2, 2, 2, 2, 2, 2}, {3}, {0, 0, 3}, {2, 2, 3, 0, 1}}
+		scripts := [][]int{{}, {1}, {2, 2, 2, 2, 2, 2, 2, 2}, {3}, {0, 0, 3}, {2, 2, 3, 0, 1}, {0, 1}, {0, 0, 1}, {2, 1}, {2, 2, 1}}
 		for k := 0; k < 3; k++ {
 			var sc []int
 			for j, m := 0, r.Intn(12); j < m; j++ {
